@@ -16,6 +16,7 @@ SECRETS = ["none", "right", "wrong", "prefix1", "prefixall", "suffix", "plus", "
 BOUNDARY = SECRETS[3:]
 MSTATES = ["active", "revoked", "expired", "inactive", "missing", "exp25s", "exp10s", "exp2s", "exp1ms", "soon60s"]
 TSTATES = ["none", "waiting", "served", "remote"]
+PARTIES = ["normal", "listen0", "target0"]
 
 # witnesses of the recorded defects of the tree as found (Proofs/TunnelOpen.v w_cell_*): they also tell which tree this is
 P_EXISTING = dict(id="none", mid="tunnel", secret="none", resume=False, mstate="missing", tstate="waiting")
@@ -41,12 +42,20 @@ SECRET_TEXT = {"none": "no secret", "right": "the named mapping's secret", "wron
 
 
 def all_cells():
-    return [dict(id=i, mid=m, secret=s, resume=r, mstate=ms, tstate=ts)
-            for i in IDS for m in MIDS for s in SECRETS for r in (False, True) for ms in MSTATES for ts in TSTATES]
+    """the full table for ordinary mappings + the mapping-party dimension (stored listening client id 0 = server-side listener,
+    stored target client id 0) on a sub-table — exactly Model.TunnelOpen.all_cells"""
+    out = [dict(id=i, mid=m, secret=s, resume=r, mstate=ms, tstate=ts, party="normal")
+           for i in IDS for m in MIDS for s in SECRETS for r in (False, True) for ms in MSTATES for ts in TSTATES]
+    for p in ("listen0", "target0"):
+        out += [dict(id=i, mid=m, secret=s, resume=False, mstate=ms, tstate=ts, party=p)
+                for i in IDS for m in MIDS for s in ("none", "right", "wrong", "prefix1") for ms in ("active", "revoked", "missing")
+                for ts in ("none", "waiting", "remote")]
+    return out
 
 
 def cell_key(c):
-    return "%s/%s/%s/%s/%s/%s" % (c["id"], c["mid"], c["secret"], "resume" if c["resume"] else "-", c["mstate"], c["tstate"])
+    k = "%s/%s/%s/%s/%s/%s" % (c["id"], c["mid"], c["secret"], "resume" if c["resume"] else "-", c["mstate"], c["tstate"])
+    return k if c.get("party", "normal") == "normal" else k + "/" + c["party"]
 
 
 def describe(c):
@@ -57,13 +66,15 @@ def describe(c):
     sec = SECRET_TEXT[c["secret"]]
     ts = {"none": "a tunnel id nobody uses", "waiting": "the id of a tunnel whose bridge waits for its target on this node",
           "served": "the id of a tunnel already connected end to end", "remote": "the id of a tunnel waiting on another node"}[c["tstate"]]
-    return "%s sends TunnelOpen with %s, %s%s, %s (named/tunnel mapping is %s)" % (
+    party = {"normal": "", "listen0": "; the mappings have a SERVER-SIDE listener (stored listening client id 0)",
+             "target0": "; the mappings have no target client (stored target client id 0)"}[c.get("party", "normal")]
+    return ("%s sends TunnelOpen with %s, %s%s, %s (named/tunnel mapping is %s)" + party) % (
         who, names, sec, ", a resume token" if c["resume"] else "", ts, c["mstate"])
 
 
 def cell_codes(c):
     return [IDS.index(c["id"]), MIDS.index(c["mid"]), SECRETS.index(c["secret"]), c["resume"],
-            MSTATES.index(c["mstate"]), TSTATES.index(c["tstate"])]
+            MSTATES.index(c["mstate"]), TSTATES.index(c["tstate"]), PARTIES.index(c.get("party", "normal"))]
 
 
 def load_corpus():
@@ -80,7 +91,7 @@ def load_corpus():
 # multi-step histories (harness/cmd/c04/hist.go; model: Corr/C04.v h_run over Model.TunnelOpen.step)
 # ------------------------------------------------------------------------------------------------------------------
 WHO = ["none", "half", "L", "T", "S", "X"]
-HMID = ["none", "m1", "m2"]
+HMID = ["none", "m1", "m2", "m3"]     # m3: server-side listener (stored listening client id 0), target client T
 HSTATES = MSTATES
 
 
@@ -100,6 +111,10 @@ def CL(tun):
     return {"op": "close", "tun": tun}
 
 
+def SRV(tun):
+    return {"op": "srv", "tun": tun}
+
+
 def SL(ms):
     return {"op": "sleep", "ms": ms}
 
@@ -117,6 +132,8 @@ def step_str(st):
         return "route(t%d,%s,%s)" % (st["tun"], st["node"], st["m"])
     if st["op"] == "close":
         return "close(t%d)" % st["tun"]
+    if st["op"] == "srv":
+        return "server-starts-tunnel(m3,t%d)" % st["tun"]
     return "sleep(%dms)" % st["ms"]
 
 
@@ -127,10 +144,14 @@ def hist_str(h):
 def hist_valid(h):
     """generator constraints: nothing happens on a tunnel id after its bridge was closed (the real lifecycle goroutine removes
     map and routing entries asynchronously), no change of a deleted mapping, route steps only with a routing table"""
-    closed, gone = set(), set()
+    closed, gone, used = set(), set(), set()
     for st in h["steps"]:
-        if st["op"] in ("open", "route", "close") and st["tun"] in closed:
+        if st["op"] in ("open", "route", "close", "srv") and st["tun"] in closed:
             return False
+        if st["op"] == "srv" and (st["tun"] in used or "m3" in gone):
+            return False      # the server chooses a fresh tunnel id: must be the first use of that slot
+        if st["op"] in ("open", "route", "close", "srv"):
+            used.add(st["tun"])
         if st["op"] == "close":
             closed.add(st["tun"])
         if st["op"] == "setm":
@@ -185,6 +206,15 @@ def directed_histories():
     out.append(H(True, O("T", "m1", "right"), SL(260), O("L", "m1", "right")))
     out.append(H(True, O("T", "m1", "right", 1), O("L", "m1", "right", 0), O("L", "m1", "right", 1)))
     out.append(H(True, RT(0, "other", "m1"), O("T", "m1", "right"), O("X", "m2", "right"), RT(0, "none"), O("none", "m1", "none")))
+    # server-side listener (stored listening client id 0): an unauthenticated / phase-1-only connection (client id 0) is NOT that party
+    for who in ("none", "half"):
+        for sec in ("none", "right", "prefix1"):
+            out.append(H(False, O(who, "m3", sec), O("T", "m3", "right")))
+            out.append(H(False, SRV(0), O(who, "m3", sec), O("T", "m3", "right")))
+            out.append(H(True, SRV(0), O(who, "m3", sec), O(who, "m3", sec, 1)))
+    out.append(H(False, SRV(0), O("T", "m3", "right"), O("X", "m3", "right"), O("L", "m3", "none")))
+    out.append(H(True, O("T", "m3", "right"), SRV(0)))
+    out.append(H(False, SRV(0), SM("m3", "revoked"), O("T", "m3", "right"), O("half", "m3", "none")))
     # boundary secrets in every family: after a legitimate open / on a live tunnel / parked early / on a routing record
     for k in ["wrong"] + BOUNDARY:
         out.append(H(False, O("L", "m1", "right"), O("T", "m1", k), O("L", "m1", k, 1), O("T", "m1", "right")))
@@ -200,7 +230,8 @@ def race_cases(rng, thorough):
     completion, B is released.  Every ordered pair of the request list = both orders."""
     reqs = [("L", "m1", "right"), ("L", "m1", "none"), ("T", "m1", "right"), ("S", "m2", "right"), ("S", "m2", "none"),
             ("X", "m2", "right"), ("X", "m1", "right"), ("T", "m2", "right"), ("none", "m1", "none"),
-            ("T", "m1", "prefixall"), ("X", "m2", "other"), ("L", "m1", "prefix1")]
+            ("T", "m1", "prefixall"), ("X", "m2", "other"), ("L", "m1", "prefix1"),
+            ("half", "m3", "none"), ("none", "m3", "right"), ("T", "m3", "right")]
     out = []
     for a in reqs:
         for b in reqs:
@@ -227,7 +258,7 @@ def XR(i):
 X_SOURCES = [("L", "m1", "right"), ("L", "m1", "none"), ("S", "m2", "right"), ("S", "m2", "none"), ("L", "m2", "right"),
              ("S", "m1", "none"), ("L", "m1", "prefixall"), ("none", "m1", "none")]
 X_REMOTES = [("T", "m1", "right"), ("X", "m2", "right"), ("X", "m1", "right"), ("T", "m2", "right"), ("T", "m1", "prefix1"),
-             ("none", "m2", "none"), ("X", "m2", "other")]
+             ("none", "m2", "none"), ("X", "m2", "other"), ("half", "m1", "right")]
 
 
 def xrace_case(p, q, r, gated):
@@ -269,13 +300,20 @@ def xnode_cases(rng, thorough):
              {"mode": "xnode", "tids": ["16"], "steps": [XO("B", "L", "m1", "none"), XO("A", "T", "m1", "right"), XO("A", "X", "m2", "right")]}]
     for k in BOUNDARY + ["wrong", "none"]:
         legit.append({"mode": "xnode", "tids": ["short"], "steps": [XO("A", "L", "m1", "right"), XO("B", "T", "m1", k), XO("B", "T", "m1", "right")]})
-    return directed + ids + legit + allx
+    # server-side listener on node A (the server starts the tunnel itself), requesters on the other node
+    srv = []
+    for who, sec in (("half", "none"), ("half", "right"), ("none", "none"), ("none", "right"), ("X", "right"), ("T", "prefix1")):
+        srv.append({"mode": "xnode", "tids": ["short"], "steps": [{"op": "srv", "tun": 0}, XO("B", who, "m3", sec), XO("B", "T", "m3", "right")]})
+        srv.append({"mode": "xnode", "tids": ["short"], "steps": [XO("B", who, "m3", sec), XO("A", who, "m3", sec)]})
+    return directed + ids + legit + srv + allx
 
 
 def xnode_str(c):
     def one(s):
         if s["op"] == "release":
             return "release(step %d)" % s["step"]
+        if s["op"] == "srv":
+            return "server-starts-tunnel@A(m3,id#%d)" % s["tun"]
         return "%sopen@%s(%s,%s,%s,id#%d)" % ("GATED " if s.get("gate") else "", s["node"], s["who"], s["mid"], s["secret"], s["tun"])
     return "two nodes, tunnel ids %s: %s" % (c["tids"], "; ".join(one(s) for s in c["steps"]))
 
@@ -353,15 +391,17 @@ def random_history(rng, routing):
         k = rng.random()
         if k < 0.62:
             who = rng.choice(["L", "L", "T", "T", "S", "X", "X", "none", "half"])
-            mid = rng.choice(["m1", "m1", "m1", "m2", "m2", "none"])
+            mid = rng.choice(["m1", "m1", "m1", "m2", "m2", "none", "m3", "m3"])
             secret = rng.choice(["none", "right", "right", "right", "wrong"] + BOUNDARY)
             steps.append(O(who, mid, secret, rng.choice([0, 0, 0, 1])))
         elif k < 0.82:
-            steps.append(SM(rng.choice(["m1", "m1", "m2"]), rng.choice(["active", "revoked", "expired", "inactive", "missing", "revoked", "exp25s", "exp10s", "exp2s", "exp1ms", "soon60s"])))
+            steps.append(SM(rng.choice(["m1", "m1", "m2", "m3"]), rng.choice(["active", "revoked", "expired", "inactive", "missing", "revoked", "exp25s", "exp10s", "exp2s", "exp1ms", "soon60s"])))
         elif k < 0.90 and routing:
             steps.append(RT(rng.choice([0, 0, 1]), rng.choice(["other", "other", "none"]), rng.choice(["m1", "m2"])))
-        elif k < 0.96:
+        elif k < 0.94:
             steps.append(CL(rng.choice([0, 1])))
+        elif k < 0.97:
+            steps.append(SRV(rng.choice([0, 1])))
         else:
             steps.append(SL(rng.choice([5, 30])))
     return H(routing, *steps)
@@ -369,10 +409,10 @@ def random_history(rng, routing):
 
 def exhaustive_histories(routing, depth):
     if routing:
-        alpha = [O("T", "m1", "right"), O("X", "m2", "right"), O("L", "m1", "right"), O("S", "m2", "none"), O("T", "m1", "prefixall"),
+        alpha = [O("T", "m1", "right"), O("X", "m2", "right"), O("L", "m1", "right"), O("S", "m2", "none"), O("T", "m1", "prefixall"), O("half", "m3", "none"), SRV(0),
                  RT(0, "other", "m1"), RT(0, "none"), SM("m1", "revoked"), CL(0)]
     else:
-        alpha = [O("L", "m1", "none"), O("L", "m1", "right"), O("T", "m1", "right"), O("X", "m2", "right"), O("none", "m1", "none"), O("T", "m1", "prefix1"),
+        alpha = [O("L", "m1", "none"), O("L", "m1", "right"), O("T", "m1", "right"), O("X", "m2", "right"), O("none", "m1", "none"), O("T", "m1", "prefix1"), O("half", "m3", "none"), O("T", "m3", "right"), SRV(0),
                  SM("m1", "revoked"), SM("m1", "active"), SM("m1", "expired"), CL(0)]
     out = []
 
@@ -401,6 +441,8 @@ def hist_value(flags_vf_si, h, o):
             steps.append([2, st["tun"], 0 if st["node"] == "none" else 1, HMID.index(st["m"])])
         elif st["op"] == "close":
             steps.append([3, st["tun"]])
+        elif st["op"] == "srv":
+            steps.append([5, st["tun"]])
         else:
             steps.append([4])
     obs = [[so["ack"], so["role"], list(so["snap"])] for so in o["steps"]]
@@ -839,7 +881,7 @@ def run(ctx, only_cases=None):
                                   for h, o in list(zip(hists, houts))[:: max(1, len(hists) // 3)][:3]]},
         "rule": "the full table identity(5: none/half-handshaken/listen/target/stranger) x named mapping(3: none/the tunnel's/another one owned by "
                 "the requester) x secret(10) x resume token(2) x state of the named mapping(10) x tunnel state at arrival(4: no bridge / bridge "
-                "waiting locally / bridge already served / waiting on another node via the routing table) = 12000 cells (mapping state: active / revoked / expired an hour, 25 s, 10 s, 2 s, 1 ms ago / expiring in 60 s / inactive / missing; secret: none / right / unrelated / first character / all but last / all but first / right+1 / case flipped / one character changed / another mapping's secret), every one driven through "
+                "waiting locally / bridge already served / waiting on another node via the routing table) = 12000 cells for ordinary mappings + a 1080-cell sub-table with the mapping-party dimension (stored listening client id 0 = server-side listener, started by the server itself through StartServerTunnel; stored target client id 0) (mapping state: active / revoked / expired an hour, 25 s, 10 s, 2 s, 1 ms ago / expiring in 60 s / inactive / missing; secret: none / right / unrelated / first character / all but last / all but first / right+1 / case flipped / one character changed / another mapping's secret), every one driven through "
                 "the real SessionManager.HandlePacket on fresh connections, mappings and tunnel ids of a fully wired server fixture (real "
                 "handshakes, real bridge, real routing table and dedicated cross-node connection to a fake peer node); witnesses and corpus "
                 "first, arrival order shuffled from VERIF_SEED (thorough: four orders). distinct = distinct cells; non-trivial = a tunnel "
